@@ -74,6 +74,8 @@ SERVICE_SCN.append(dict(file="scenarios/service_probe.ndjson", cfg=SERVICE_BTC_C
 SERVICE_SCN.append(dict(file="scenarios/service_bundle.ndjson", cfg=SERVICE_SCN_CFG + ",bundle=100"))
 # regression: owner tally in two denoms (finding F35, fixed by a72912e)
 SERVICE_SCN.append(dict(file="scenarios/service_F35.ndjson", cfg=SERVICE_BTC_CFG))
+# regression: F40 (partial debit of a multi-denom batch fee in the end-blocker, fixed in /repo)
+SERVICE_SCN.append(dict(file="scenarios/service_F40.ndjson", cfg="users=4,init=60,initbtc=30,taxnum=1,taxden=4,slashnum=1,slashden=2,btc=1,f36=1"))
 SERVICE_PENDING = [dict(file="scenarios/service_F36.ndjson", cfg=SERVICE_BTC_CFG)]
 if F36_KNOWN:
     SERVICE_SCN += SERVICE_PENDING
